@@ -717,6 +717,7 @@ def explore(fn, max_paths=100000):
     """depth-first exploration of all decision paths of fn(ctx). returns [(decisions, result, ctx)]"""
     global CTX
     stack = [[]]; results = []
+    explore.truncated = False
     while stack:
         prefix = stack.pop()
         CTX = Ctx(prefix)
@@ -729,7 +730,9 @@ def explore(fn, max_paths=100000):
         for i in range(len(prefix), len(ds)):
             stack.append(ds[:i] + [not ds[i]])
         if len(results) > max_paths:
-            raise Inconclusive('path budget exceeded')
+            # the paths explored so far are still evaluated (a violation among them is real); the configuration stays inconclusive otherwise
+            explore.truncated = True
+            return results
     return results
 
 
